@@ -9,7 +9,15 @@ import json
 from concurrent.futures import ThreadPoolExecutor
 
 from . import core
-from .core import cq_bool, cq_list, cq_nat, cq_pos
+from .core import cq_bool, cq_nat, cq_pos
+
+
+def cq_list(items):
+    """cons/nil chains: Coq's recursive [a; b] notation is slow to parse on deeply nested literals."""
+    out = "nil"
+    for x in reversed(items):
+        out = "(cons %s %s)" % (x, out)
+    return out
 
 PKG_NAMES = ["P", "Q", "R", "S", "Lib", "Util", "Media"]
 MODEL_NAMES = ["M", "A", "B", "Base", "Tank", "Sub", "Sys"]
@@ -495,28 +503,43 @@ class Interner:
         return self.t[s]
 
 
-def enc_node(d, names, types, toks):
-    hdr = "(Hdr %s %s %s)" % (cq_pos(types(d["t"])),
-                              cq_list([cq_list([cq_pos(toks(x)) for x in a]) for a in d["a"]]),
-                              cq_list([cq_bool(b) for b in d["f"]]))
-    kids = cq_list(["(%s, %s)" % (cq_pos(names(c["n"])), enc_node(c, names, types, toks)) for c in d["c"]])
-    return "(Node %s %s)" % (hdr, kids)
+class Sharing:
+    """Hash-consing of headers and subtrees inside one case term (`let x := ... in`): the merged trees of
+    the different file orders share almost all of their subtrees."""
+    def __init__(self):
+        self.defs = []
+        self.seen = {}
+
+    def name(self, prefix, term):
+        if term not in self.seen:
+            self.seen[term] = "%s%d" % (prefix, len(self.defs))
+            self.defs.append((self.seen[term], term))
+        return self.seen[term]
+
+
+def enc_node(d, names, types, toks, sh):
+    hdr = sh.name("h", "Hdr %s %s %s" % (cq_pos(types(d["t"])),
+                                         cq_list([cq_list([cq_pos(toks(x)) for x in a]) for a in d["a"]]),
+                                         cq_list([cq_bool(b) for b in d["f"]])))
+    kids = cq_list(["(%s, %s)" % (cq_pos(names(c["n"])), enc_node(c, names, types, toks, sh)) for c in d["c"]])
+    return sh.name("n", "Node %s %s" % (hdr, kids))
 
 
 def encode_case(case, res, orders_for_coq):
-    names, toks = Interner(), Interner()
+    names, toks, sh = Interner(), Interner(), Sharing()
     types = Interner({"package": 1, "": 2})
     files = []
     for f in res["files"]:
         within = [names(x) for w in f["within"] for x in w]
-        classes = cq_list(["(%s, %s)" % (cq_pos(names(c["n"])), enc_node(c, names, types, toks)) for c in f["classes"]])
+        classes = cq_list(["(%s, %s)" % (cq_pos(names(c["n"])), enc_node(c, names, types, toks, sh)) for c in f["classes"]])
         files.append("((%s, %s), %s)" % (cq_list([cq_pos(x) for x in within]), classes,
-                                        enc_node(f["tree"], names, types, toks)))
+                                        enc_node(f["tree"], names, types, toks, sh)))
     obs = []
     for o, r in orders_for_coq:
-        obs.append("(%s, %s)" % (cq_list([cq_nat(i) for i in o]), enc_node(r["tree"], names, types, toks)))
-    return "(%s, %s, %s, %s)" % (cq_bool(case["style"] == "compiler"), cq_bool(bool(case.get("compat"))),
+        obs.append("(%s, %s)" % (cq_list([cq_nat(i) for i in o]), enc_node(r["tree"], names, types, toks, sh)))
+    body = "(%s, %s, %s, %s)" % (cq_bool(case["style"] == "compiler"), cq_bool(bool(case.get("compat"))),
                                  cq_list(files), cq_list(obs))
+    return "(" + "".join("let %s := %s in\n    " % d for d in sh.defs) + body + ")"
 
 
 PREAMBLE = "From Coq Require Import List PArith.\nImport ListNotations.\nFrom PV Require Import Model.C27_merge.\n"
@@ -617,7 +640,7 @@ def run(ctx):
         enc.append(encode_case(c, r, allo))
         idx.append(i)
     t_coq = time.time()
-    bad = core.coq_eval_cases(ctx, "merge", PREAMBLE, CASE_TYPE, enc, "check_case", shard=8)
+    bad = core.coq_eval_cases(ctx, "merge", PREAMBLE, CASE_TYPE, enc, "check_case", shard=10)
     ctx.notes["timing_s"]["coq_cases"] = round(time.time() - t_coq, 1)
     mism = list(range(len(cases))) if bad is None else [idx[j] for j in bad]
     ctx.oblige("correspondence:model-vs-Tree.extend+file_to_tree", not mism,
